@@ -61,6 +61,7 @@ func init() {
 				{Scenario: "reopen_life", Params: mustJSON(LifeParams{Oracle: "tuple", Segs: 2, EarlySave: true}), Bound: 0, Shards: 8, Note: "a save BEFORE the branch changes and one after: the stored checkpoint carries the new branch's vbUUID"},
 				{Scenario: "c07_gate", Params: mustJSON(MitigationParams{Replicas: 1, TransientEnd: true, RollbackAtEnd: true}), Bound: 0, Shards: 8, Note: "rollback mitigation on (the default): a re-open answered with a rollback while the copies are quiet - every document above F is still shown"},
 				{Scenario: "c06_reopen", Params: mustJSON(struct{}{}), Bound: 0, Shards: 2, Note: "transient end, re-open answered with a rollback; mutations, deletions and expirations (small revision numbers) on the new branch"},
+				{Scenario: "reopen_life", Params: mustJSON(LifeParams{Oracle: "delivery", Segs: 2, RetryAck: true}), Bound: 0, Shards: 8, Note: "the first re-open attempt is rejected and the consumer acknowledges its batch before the retry: the retry (and a rollback answered to it) starts from the position settled by then"},
 				{Scenario: "reopen_life", Params: mustJSON(LifeParams{Oracle: "delivery", Segs: 2}), Bound: 0, Shards: 8, Note: "rollbacks answered to RE-opens of a running session, including a second rollback to the same position with no progress in between"},
 			}
 		},
